@@ -531,7 +531,7 @@ def getitem(it, base, key, node):
     if isinstance(base, SCls):
         from .interp import SUBSCRIPT_MODELS
 
-        for k, fn in SUBSCRIPT_MODELS.items():
+        for k, fn in list(getattr(it, "subscript_models", {}).items()) + list(SUBSCRIPT_MODELS.items()):  # case-level models first
             if issubclass(base.kind, k):
                 return fn(it, base, key)
         it.outside(f"subscript of {base!r}", node)
@@ -540,7 +540,7 @@ def getitem(it, base, key, node):
 
         # K[...] inside a function under verification (also the recursive
         # calls of a metaclass __getitem__ itself) goes through the contract
-        for k, fn in SUBSCRIPT_MODELS.items():
+        for k, fn in list(getattr(it, "subscript_models", {}).items()) + list(SUBSCRIPT_MODELS.items()):
             if issubclass(base, k):
                 return fn(it, base, key)
         if not contains_symbolic(key):
